@@ -9,6 +9,8 @@
 (*   Check(n)     a lookup of name n.  Nondeterministic: every observable  *)
 (*                outcome (set of prefixes disclosed, verdict) that the    *)
 (*                statement admits is a successor (HashPrefixCore.tla).    *)
+(*   LookupFails(n) the same lookup while the service answers with an      *)
+(*                error: the caller gets the error, the cache is untouched.*)
 (*   Tick         one unit of time passes; entries age and expire.         *)
 (*   DbChange(x)  the service learns / forgets one hash: from then on a    *)
 (*                fresh lookup and an unexpired cache entry may disagree,  *)
@@ -173,6 +175,19 @@ Check(n) ==
          /\ Emit([s |-> St(db, cache, impl), a |-> "check", n |-> n.l, q |-> o.q, v |-> o.v,
                   d |-> St(db', cache', impl')])
 
+\* The lookup of n fails: the service answers the question with an error.
+\* The caller gets the error; db, cache (and the ghost) stay as they were.
+\* (When the check asks nothing the failure cannot show: that is Check(n) with
+\* q = {}, not a separate action.)  In the gen graph the question is the one
+\* the implementation model asks.
+LookupFails(n) ==
+    \E q \in FailQuestions(n) :
+         /\ ImplOnly => q = ImplQ(n)
+         /\ last' = [a |-> "fail", n |-> n.l, q |-> q, v |-> FALSE]
+         /\ UNCHANGED <<db, cache, fdb, impl>>
+         /\ Emit([s |-> St(db, cache, impl), a |-> "fail", n |-> n.l, q |-> q,
+                  d |-> St(db', cache', impl')])
+
 Tick ==
     /\ cache' = Age(cache, 1)
     /\ fdb' = [p \in Prefixes |-> IF cache'[p].ttl = 0 THEN {} ELSE fdb[p]]
@@ -187,7 +202,9 @@ DbChange(x) ==
     /\ UNCHANGED <<cache, fdb, impl>>
     /\ Emit([s |-> St(db, cache, impl), a |-> "db", x |-> x.r, d |-> St(db', cache', impl')])
 
-Next == (\E n \in Names : Check(n)) \/ Tick \/ (\E x \in DbU : DbChange(x))
+Next == \/ \E n \in Names : Check(n) \/ LookupFails(n)
+        \/ Tick
+        \/ \E x \in DbU : DbChange(x)
 Spec == Init /\ [][Next]_vars
 
 GraphView == <<db, cache, fdb, impl>>
@@ -250,11 +267,20 @@ SameAsFresh(l, v) ==
 SuffixHashNeverBlocks(l, v) ==
     v => \E k \in 1 .. Min(4, Len(l)) : k > NameOf(l).cut /\ HOf(Suffix(l, k)) \in DbU
 
+\* A failed lookup discloses nothing but candidate prefixes either, and leaves
+\* the cache as it was -- so every later answer from the cache is still what
+\* a fresh lookup returned when the entry was fetched (CacheTransparent).
+FailStepOK ==
+    last'.a = "fail" =>
+        /\ last'.q # {}
+        /\ QuestionOnlyPrefixes(last'.n, last'.q)
+        /\ cache' = cache /\ fdb' = fdb /\ db' = db
+
 CheckStepOK ==
     last'.a = "check" =>
         /\ QuestionOnlyPrefixes(last'.n, last'.q)
         /\ VerdictOK(last'.n, last'.q, last'.v)
         /\ SameAsFresh(last'.n, last'.v)
         /\ SuffixHashNeverBlocks(last'.n, last'.v)
-StepProps == [][CheckStepOK]_vars
+StepProps == [][CheckStepOK /\ FailStepOK]_vars
 =============================================================================
